@@ -508,6 +508,11 @@ impl<'tcx> Cx<'tcx> {
                 ("k", J::s("repeat")),
                 ("op", self.operand(env, op)),
                 ("n", J::s(format!("{}", n))),
+                // the evaluated length when it is known here (a literal, or a named constant without generic parameters)
+                ("len", match tcx.try_normalize_erasing_regions(env, rustc_middle::ty::Unnormalized::new_wip(*n)).ok().and_then(|c| c.try_to_target_usize(tcx)) {
+                    Some(v) => J::s(format!("{}", v)),
+                    None => J::s(String::new()),
+                }),
             ]),
             Rvalue::Ref(_, bk, p) => J::obj(vec![
                 ("k", J::s("ref")),
